@@ -2,7 +2,7 @@
 import scopedom
 
 OBS = 'ObsC06'
-LABELS = {'quick': 'cancel abort graceful cancel_close cancel_nested cancel_grace'.split(), 'thorough': 'cancel abort graceful cancel_close cancel_nested cancel_grace'.split()}
+LABELS = {'quick': 'cancel abort graceful cancel_close cancel_nested cancel_grace cancel_wake'.split(), 'thorough': 'cancel abort graceful cancel_close cancel_nested cancel_grace cancel_wake'.split()}
 
 
 def run(check):
